@@ -371,7 +371,13 @@ def compare(ctx, cases, drv):
             problems.append((c, f"real code raised {r['__error__']}: {r['text'][:300]}", True))
             continue
         if "error" in m:
-            raise core.HarnessError("model driver error: " + m["error"])
+            if ctx.lean.ok:
+                raise core.HarnessError("model driver error: " + m["error"])
+            ctx.count("model_unavailable", m["error"][:80])  # translated part not regenerable (a broken obligation already): oracle only
+            v_ = verdict(c, r) if not core.impl_error(r) else None
+            if v_ is not None:
+                problems.append((c, v_, True))
+            continue
         v = verdict(c, r)
         if v is not None:
             problems.append((c, v, True))
@@ -439,7 +445,8 @@ def gen_cases(ctx):
         w = rng.choice(ws)
         kind = rng.choice(["weight", "weight", "prob"])
         if kind == "weight":
-            d["thr"] = {"kind": "weight", "value": rng.choice([w, w + 0.5, w - 0.5, round(w, 1)])}
+            # on / around an emitted score, and the falsy-but-given boundary values 0, 0.0, -0.0 (= probability 0.5)
+            d["thr"] = {"kind": "weight", "value": rng.choice([w, w + 0.5, w - 0.5, round(w, 1), 0, 0.0, -0.0])}
         else:
             p = (2.0**w) / (1 + 2.0**w)
             d["thr"] = {"kind": "prob", "value": rng.choice([p, min(0.999999, p * 1.1), p * 0.9, 0.0, 0.5])}
@@ -510,7 +517,13 @@ def run(ctx: core.Ctx):
         "floating point: columns compared at relative 1e-9 with the Float model and 1e-7 with the closed-form oracle; rows within 1e-9 of the threshold excepted",
         "level conditions used here (equality, levenshtein, abs difference, IS NULL) are evaluated by the harness itself",
     ]
+    from harness.translate import tarith
+
+    errs = tarith.write({"threshold_args_to_match_weight", "prob_to_match_weight", "prob_to_bayes_factor"})  # the model's threshold conversion is the translated source
     ctx.lean = core.lean_check(PROP, ctx.thorough)
+    if errs:
+        ctx.lean.ok = False
+        ctx.lean.problems += ["T-arith: " + e for e in errs]
     drv = core.Driver()
     if ctx.replay:
         cases = [json.loads(open(ctx.replay).read())["replay"]["case"]]
